@@ -9,7 +9,7 @@ import (
 
 func init() {
 	sim.Register(&sim.Prop{
-		ID: "C05", Run: runC05, QuickRuns: 80000, ThoroughRuns: 400000,
+		ID: "C05", Run: runC05, QuickRuns: 80000, ThoroughRuns: 150000,
 		Rule:       "Each run: one bufiox writer (io.Writer-backed over a simulated Sink, or bytes-backed over a nil/empty/partly filled/full caller slice) driven through 1..300 operations from {Malloc(n), WriteBinary, late/partial/re-fill of any open region, Flush, negative counts}; every region has its own keyed pattern; the Sink fails at a tape-chosen k-th write accepting a strict prefix; allocator mode and co-tenant per run. Oracle: region-list model (exactly-once, in order, WrittenLen, sticky error, target slice).",
 		Components: realComponents,
 		Probes: []string{"writer_alloc_or_growth", "flush_with_0_pending", "flush_with_1_pending", "flush_with_2_or_more_pending", "region_filled_after_growth",
